@@ -10,6 +10,7 @@ import (
 	"strconv"
 	"strings"
 	"sync"
+	"sync/atomic"
 	"time"
 
 	"github.com/gcash/bchd/chaincfg/chainhash"
@@ -25,13 +26,27 @@ import (
 // FRESH real object; after every call the returned value is compared with a fresh computation
 // from MsgBlock() / MsgTx() (bchd's wire package is the reference the statement names), with
 // the objects returned earlier in the same history (identity), and the pure observers
-// (Height / Index, the wire message itself) are re-read.  After the history a fixed sweep of
-// every accessor runs on the same (now disposable) object under the same oracle.
+// (Height / Index, every field of the wire message) are re-read.  Observers that fill a cache
+// are operations of the menu, so "observe everything after every step" is the set of
+// successors of the history; a fixed sweep of every accessor on the same (then disposable)
+// object is added where no successors are explored (histories of maximal length) and on replay.
 //
 // Two searches use that one evaluator: (1) breadth-first search to a fixpoint on the state key
 // = private cache fields of the implementation (read by reflection) + the oracle's own memory,
 // successors obtained by replaying the shortest history plus one call on a fresh object;
-// (2) every call sequence up to a depth bound.
+// (2) every call sequence up to a depth bound (does not depend on the key).
+//
+// Clauses and classes (block/..., tx/... likewise): cached-hash-differs-from-fresh,
+// cached-bytes-differ-from-fresh-serialisation, cached-tx-hash-differs-from-fresh,
+// tx-wraps-wrong-message, tx-index-wrong, repeated-call-returns-different-object/<accessor>,
+// transactions-wrong-length / -nil-element, out-of-range-panics / -returns-no-error /
+// -error-not-OutOfRangeError, txloc-does-not-delimit-serialisation / txloc-position-wrong,
+// reparsed-block-not-equivalent/<what>, constructed-wire-message-differs-from-input,
+// accessor-changes-wire-message, height-differs-from-last-set, accessor-panics/<accessor>.
+// Not demanded (the statement does not): that Bytes() is the slice given to the constructor,
+// that Transactions() returns the same slice header twice (its elements must be the same
+// objects), that TxLoc() returns the same slice twice, pointer identity of MsgTx() with
+// MsgBlock().Transactions[i] (field equality is).
 
 func init() {
 	register(&Prop{ID: "C16", Run: runC16, Replay: map[string]func(*mc.Ctx, json.RawMessage){
@@ -483,9 +498,15 @@ func c16BlockImplKey(b *bchutil.Block) string {
 			sb.WriteString(" 0")
 		}
 	}
-	flag("txnsGenerated", func(f reflect.Value) (bool, bool) { return f.Kind() == reflect.Bool && f.Bool(), f.Kind() == reflect.Bool })
-	flag("blockHash", func(f reflect.Value) (bool, bool) { return f.Kind() == reflect.Ptr && !f.IsNil(), f.Kind() == reflect.Ptr })
-	flag("serializedBlock", func(f reflect.Value) (bool, bool) { return f.Kind() == reflect.Slice && f.Len() != 0, f.Kind() == reflect.Slice })
+	flag("txnsGenerated", func(f reflect.Value) (bool, bool) {
+		return f.Kind() == reflect.Bool && f.Bool(), f.Kind() == reflect.Bool
+	})
+	flag("blockHash", func(f reflect.Value) (bool, bool) {
+		return f.Kind() == reflect.Ptr && !f.IsNil(), f.Kind() == reflect.Ptr
+	})
+	flag("serializedBlock", func(f reflect.Value) (bool, bool) {
+		return f.Kind() == reflect.Slice && f.Len() != 0, f.Kind() == reflect.Slice
+	})
 	if f := v.FieldByName("blockHeight"); f.IsValid() && f.CanInt() {
 		sb.WriteString(" h" + strconv.FormatInt(f.Int(), 10))
 	} else {
@@ -546,7 +567,7 @@ type c16BlockRun struct {
 	op    c16Op
 	sweep bool
 	msg   *wire.MsgBlock
-	fresh []byte
+	cur   *c16Ref // fresh computation from msg (the fixture's while the field prints agree)
 }
 
 func (r *c16BlockRun) viol(class, detail string) {
@@ -565,25 +586,36 @@ func (r *c16BlockRun) observe() bool {
 	w.Eval()
 	var msg *wire.MsgBlock
 	var h int32
-	if m, p := mc.Guard(func() { msg = r.b.MsgBlock(); h = r.b.Height() }); p {
+	var print []byte
+	if m, p := mc.Guard(func() { msg = r.b.MsgBlock(); h = r.b.Height(); print = c16PrintBlock(msg) }); p {
 		r.viol("block/accessor-panics/MsgBlock-or-Height", m)
 		return false
 	}
-	fresh, ok := c16SerBlockG(msg)
-	if !ok {
-		r.viol("block/wire-message-unusable", "MsgBlock() is nil or cannot be serialised")
+	if msg == nil {
+		r.viol("block/wire-message-unusable", "MsgBlock() is nil")
 		return false
 	}
-	r.msg, r.fresh = msg, fresh
 	if len(msg.Transactions) != r.ref.n {
 		r.viol("block/wire-message-transaction-count-differs-from-input", fmt.Sprintf("MsgBlock() has %d transactions, constructor was given %d", len(msg.Transactions), r.ref.n))
 		return false
 	}
-	if !bytes.Equal(fresh, r.ref.ser) {
+	r.msg = msg
+	switch {
+	case bytes.Equal(print, r.ref.print):
+		r.cur = r.ref
+	case r.cur != nil && bytes.Equal(print, r.cur.print):
+		// changed earlier and reported then
+	default:
+		var cur *c16Ref
+		if m, p := mc.Guard(func() { cur = c16BlockRefOf(msg) }); p {
+			r.viol("block/wire-message-unusable", "MsgBlock() cannot be serialised: "+m)
+			return false
+		}
+		r.cur = cur
 		if r.k < 0 {
-			r.viol("block/constructed-wire-message-differs-from-input", fmt.Sprintf("MsgBlock() serialises to %x, constructor was given %x", fresh, r.ref.ser))
+			r.viol("block/constructed-wire-message-differs-from-input", fmt.Sprintf("MsgBlock() serialises to %x, constructor was given %x", cur.ser, r.ref.ser))
 		} else {
-			r.viol("block/accessor-changes-wire-message", fmt.Sprintf("MsgBlock() now serialises to %x", fresh))
+			r.viol("block/accessor-changes-wire-message", fmt.Sprintf("MsgBlock() now serialises to %x", cur.ser))
 		}
 	}
 	if h != r.height {
@@ -605,10 +637,8 @@ func (r *c16BlockRun) checkWrapped(via string, i int, t *bchutil.Tx) {
 	if ix != i {
 		r.viol("block/tx-index-wrong/"+via, fmt.Sprintf("wrapped transaction for index %d has Index()=%d", i, ix))
 	}
-	got, ok := c16SerTxG(m)
-	want, _ := c16SerTxG(r.msg.Transactions[i])
-	if !ok || !bytes.Equal(got, want) {
-		r.viol("block/tx-wraps-wrong-message/"+via, fmt.Sprintf("wrapped transaction %d serialises to %x, MsgBlock().Transactions[%d] to %x", i, got, i, want))
+	if m != r.msg.Transactions[i] && !bytes.Equal(c16PrintTx(nil, m), c16PrintTx(nil, r.msg.Transactions[i])) {
+		r.viol("block/tx-wraps-wrong-message/"+via, fmt.Sprintf("MsgTx() of wrapped transaction %d differs from MsgBlock().Transactions[%d] (%x)", i, i, r.cur.txSer[i]))
 	}
 	if i < len(r.txSeen) {
 		if r.txSeen[i] == nil {
@@ -638,8 +668,8 @@ func (r *c16BlockRun) checkBytes(raw []byte, err error, doReparse bool) bool {
 		r.viol("block/bytes-returns-error", err.Error())
 		return false
 	}
-	if !bytes.Equal(raw, r.fresh) {
-		r.viol("block/cached-bytes-differ-from-fresh-serialisation", fmt.Sprintf("Bytes()=%x fresh=%x", raw, r.fresh))
+	if !bytes.Equal(raw, r.cur.ser) {
+		r.viol("block/cached-bytes-differ-from-fresh-serialisation", fmt.Sprintf("Bytes()=%x fresh=%x", raw, r.cur.ser))
 	}
 	if len(raw) > 0 {
 		if r.bytesSeen == nil {
@@ -655,10 +685,21 @@ func (r *c16BlockRun) checkBytes(raw []byte, err error, doReparse bool) bool {
 	return true
 }
 
+// c16Reparsed remembers which byte strings have been through the re-parse clause: it is a
+// statement about the bytes alone (a new object is built from them), so it is evaluated once
+// per (fixture, constructor, distinct Bytes() content) and process, not once per call.
+var c16Reparsed sync.Map
+
 // reparse: NewBlockFromBytes(b.Bytes()) is equivalent to b (hash, transaction hashes, bytes).
 func (r *c16BlockRun) reparse(raw []byte) {
 	w := r.w
+	if !w.Ctx().Replaying {
+		if _, done := c16Reparsed.LoadOrStore(r.fixture+"/"+r.ctor+"/"+string(raw), true); done {
+			return
+		}
+	}
 	w.Eval()
+	w.Outcome("block re-parsed from Bytes()")
 	var b2 *bchutil.Block
 	var err error
 	if msg, p := mc.Guard(func() { b2, err = bchutil.NewBlockFromBytes(raw) }); p || err != nil || b2 == nil {
@@ -684,8 +725,8 @@ func (r *c16BlockRun) reparse(raw []byte) {
 		return
 	}
 	w.TransN(int64(2 + n))
-	if h2 == nil || *h2 != r.msg.BlockHash() {
-		r.viol("block/reparsed-block-not-equivalent/hash", fmt.Sprintf("got %v want %v", h2, r.msg.BlockHash()))
+	if h2 == nil || *h2 != r.cur.hash {
+		r.viol("block/reparsed-block-not-equivalent/hash", fmt.Sprintf("got %v want %v", h2, r.cur.hash))
 	}
 	if err != nil || !bytes.Equal(raw2, raw) {
 		r.viol("block/reparsed-block-not-equivalent/bytes", fmt.Sprintf("err=%v bytes=%x want %x", err, raw2, raw))
@@ -695,8 +736,8 @@ func (r *c16BlockRun) reparse(raw []byte) {
 		return
 	}
 	for i := 0; i < n; i++ {
-		if want := r.msg.Transactions[i].TxHash(); txh[i] == nil || *txh[i] != want {
-			r.viol("block/reparsed-block-not-equivalent/tx-hash", fmt.Sprintf("transaction %d: got %v want %v", i, txh[i], want))
+		if txh[i] == nil || *txh[i] != r.cur.txHash[i] {
+			r.viol("block/reparsed-block-not-equivalent/tx-hash", fmt.Sprintf("transaction %d: got %v want %v", i, txh[i], r.cur.txHash[i]))
 		}
 	}
 }
@@ -741,8 +782,8 @@ func (r *c16BlockRun) step(k int, op c16Op, sweep bool) bool {
 			r.viol("block/hash-nil", "Hash() returned nil")
 			break
 		}
-		if want := r.msg.BlockHash(); *h != want {
-			r.viol("block/cached-hash-differs-from-fresh", fmt.Sprintf("Hash()=%v MsgBlock().BlockHash()=%v", h, want))
+		if *h != r.cur.hash {
+			r.viol("block/cached-hash-differs-from-fresh", fmt.Sprintf("Hash()=%v MsgBlock().BlockHash()=%v", h, r.cur.hash))
 		}
 		if r.hashSeen == nil {
 			r.hashSeen = h
@@ -828,8 +869,8 @@ func (r *c16BlockRun) step(k int, op c16Op, sweep bool) bool {
 			r.viol("block/txhash-in-range-returns-error", fmt.Sprintf("TxHash(%d) on %d transactions: hash=%v err=%v", i, n, h, err))
 			break
 		}
-		if want := r.msg.Transactions[i].TxHash(); *h != want {
-			r.viol("block/cached-tx-hash-differs-from-fresh", fmt.Sprintf("TxHash(%d)=%v MsgBlock().Transactions[%d].TxHash()=%v", i, h, i, want))
+		if *h != r.cur.txHash[i] {
+			r.viol("block/cached-tx-hash-differs-from-fresh", fmt.Sprintf("TxHash(%d)=%v MsgBlock().Transactions[%d].TxHash()=%v", i, h, i, r.cur.txHash[i]))
 		}
 		if r.txHashSeen[i] == nil {
 			r.txHashSeen[i] = h
@@ -907,7 +948,7 @@ func (r *c16BlockRun) step(k int, op c16Op, sweep bool) bool {
 		}
 		pos := 80 + wire.VarIntSerializeSize(uint64(n))
 		for i, l := range locs {
-			want, _ := c16SerTxG(r.msg.Transactions[i])
+			want := r.cur.txSer[i]
 			if l.TxStart < 0 || l.TxLen < 0 || l.TxStart > len(raw) || l.TxLen > len(raw)-l.TxStart ||
 				!bytes.Equal(raw[l.TxStart:l.TxStart+l.TxLen], want) {
 				r.viol("block/txloc-does-not-delimit-serialisation", fmt.Sprintf("transaction %d: location {%d,%d} in %d block bytes is not its serialisation (%d bytes)", i, l.TxStart, l.TxLen, len(raw), len(want)))
@@ -952,7 +993,9 @@ func (r *c16BlockRun) modelKey() string {
 }
 
 // c16RunBlock executes one history.  key is the state reached by the history (before the sweep).
-func c16RunBlock(w *mc.W, fixture, ctor string, ops []c16Op, wantKey bool) (key string) {
+// sweep: also call every accessor once more afterwards (always on replay; the enumerator
+// leaves it out where the same calls are explored as successors anyway).
+func c16RunBlock(w *mc.W, fixture, ctor string, ops []c16Op, wantKey, sweep bool) (key string) {
 	c16Refs()
 	ref := c16BlockRefs[fixture]
 	if ref == nil {
@@ -1004,6 +1047,9 @@ func c16RunBlock(w *mc.W, fixture, ctor string, ops []c16Op, wantKey bool) (key 
 	if r.nontrivial {
 		w.Nontrivial(mc.HashString(append([]string{fixture, ctor}, c16OpStrings(ops)...)...))
 	}
+	if !sweep {
+		return key
+	}
 	// final sweep: every accessor once more on the same object, same oracle
 	for _, op := range c16BlockMenu(ref.n) {
 		if op.kind != c16OpSetHeight && !r.step(len(ops), op, true) {
@@ -1023,8 +1069,8 @@ func c16RunBlock(w *mc.W, fixture, ctor string, ops []c16Op, wantKey bool) (key 
 			r.viol("block/accessor-panics/wrapped-tx", "Hash() of the wrapped transaction: "+msg)
 			continue
 		}
-		if want := r.msg.Transactions[i].TxHash(); *h != want {
-			r.viol("block/wrapped-tx-hash-differs-from-fresh", fmt.Sprintf("Tx(%d).Hash()=%v fresh=%v", i, h, want))
+		if *h != r.cur.txHash[i] {
+			r.viol("block/wrapped-tx-hash-differs-from-fresh", fmt.Sprintf("Tx(%d).Hash()=%v fresh=%v", i, h, r.cur.txHash[i]))
 		}
 	}
 	return key
@@ -1035,7 +1081,7 @@ func c16EvalBlock(w *mc.W, cas c16BlockCase) {
 	for i, s := range cas.Ops {
 		ops[i] = c16ParseOp(s, false)
 	}
-	c16RunBlock(w, cas.Fixture, cas.Ctor, ops, false)
+	c16RunBlock(w, cas.Fixture, cas.Ctor, ops, false, true)
 }
 
 // ---------------------------------------------------------------------------------------
@@ -1047,7 +1093,7 @@ type c16TxCase struct {
 	Ops  []string `json:"ops"`
 }
 
-func c16RunTx(w *mc.W, name, ctor string, ops []c16Op, wantKey bool) (key string) {
+func c16RunTx(w *mc.W, name, ctor string, ops []c16Op, wantKey, sweep bool) (key string) {
 	c16Refs()
 	c := w.Ctx()
 	ref := c16TxRefs[name]
@@ -1088,6 +1134,7 @@ func c16RunTx(w *mc.W, name, ctor string, ops []c16Op, wantKey bool) (key string
 	index := bchutil.TxIndexUnknown
 	var hashSeen *chainhash.Hash
 	var msgSeen, m *wire.MsgTx
+	var fresh *c16Ref
 	nontrivial := false
 	observe := func() bool {
 		w.Eval()
@@ -1096,16 +1143,26 @@ func c16RunTx(w *mc.W, name, ctor string, ops []c16Op, wantKey bool) (key string
 			viol("tx/accessor-panics/MsgTx-or-Index", pm)
 			return false
 		}
-		got, ok := c16SerTxG(m)
-		if !ok {
-			viol("tx/wire-message-unusable", "MsgTx() is nil or cannot be serialised")
+		if m == nil {
+			viol("tx/wire-message-unusable", "MsgTx() is nil")
 			return false
 		}
-		if !bytes.Equal(got, ref.ser) {
+		switch print := c16PrintTx(nil, m); {
+		case bytes.Equal(print, ref.print):
+			fresh = ref
+		case fresh != nil && bytes.Equal(print, fresh.print):
+			// changed earlier and reported then
+		default:
+			var nc *c16Ref
+			if pm, p := mc.Guard(func() { nc = c16TxRefOf(m) }); p {
+				viol("tx/wire-message-unusable", "MsgTx() cannot be serialised: "+pm)
+				return false
+			}
+			fresh = nc
 			if k < 0 {
-				viol("tx/constructed-wire-message-differs-from-input", fmt.Sprintf("MsgTx() serialises to %x, constructor was given %x", got, ref.ser))
+				viol("tx/constructed-wire-message-differs-from-input", fmt.Sprintf("MsgTx() serialises to %x, constructor was given %x", fresh.ser, ref.ser))
 			} else {
-				viol("tx/accessor-changes-wire-message", fmt.Sprintf("MsgTx() now serialises to %x", got))
+				viol("tx/accessor-changes-wire-message", fmt.Sprintf("MsgTx() now serialises to %x", fresh.ser))
 			}
 		}
 		if ix != index {
@@ -1137,8 +1194,8 @@ func c16RunTx(w *mc.W, name, ctor string, ops []c16Op, wantKey bool) (key string
 				viol("tx/hash-nil", "Hash() returned nil")
 				break
 			}
-			if want := m.TxHash(); *h != want {
-				viol("tx/cached-hash-differs-from-fresh", fmt.Sprintf("Hash()=%v MsgTx().TxHash()=%v", h, want))
+			if *h != fresh.hash {
+				viol("tx/cached-hash-differs-from-fresh", fmt.Sprintf("Hash()=%v MsgTx().TxHash()=%v", h, fresh.hash))
 			}
 			if hashSeen == nil {
 				hashSeen = h
@@ -1192,6 +1249,9 @@ func c16RunTx(w *mc.W, name, ctor string, ops []c16Op, wantKey bool) (key string
 	if nontrivial {
 		w.Nontrivial(mc.HashString(append([]string{"tx", name, ctor}, c16OpStrings(ops)...)...))
 	}
+	if !sweep {
+		return key
+	}
 	// final sweep
 	k = len(ops)
 	for _, op := range []c16Op{{kind: c16OpTHash}, {kind: c16OpTMsgTx}, {kind: c16OpTIndex}, {kind: c16OpTHash}} {
@@ -1207,7 +1267,7 @@ func c16EvalTx(w *mc.W, cas c16TxCase) {
 	for i, s := range cas.Ops {
 		ops[i] = c16ParseOp(s, true)
 	}
-	c16RunTx(w, cas.Tx, cas.Ctor, ops, false)
+	c16RunTx(w, cas.Tx, cas.Ctor, ops, false, true)
 }
 
 // ---------------------------------------------------------------------------------------
@@ -1238,6 +1298,45 @@ func c16BFS(w *mc.W, menu []c16Op, run func(ops []c16Op) string) (states, depth 
 		frontier = next
 	}
 	return len(seen), depth
+}
+
+// c16ParFor visits every index of [0,n) exactly once like the kernel's parallel loop, but with
+// at most two workers: every Block/Tx call that serialises, hashes or parses goes through two
+// global free-list channels inside bchd/wire, and with more goroutines the run gets slower
+// (measured on 16 cores, quick tier: 1 worker 8.4 s, 2: 6.0 s, 4: 7.6 s, 16: 14.5 s).
+func c16ParFor(c *mc.Ctx, n int64, f func(w *mc.W, i int64)) {
+	nw := mc.Workers()
+	if nw > 2 {
+		nw = 2
+	}
+	chunk := n / int64(nw*64)
+	if chunk < 1 {
+		chunk = 1
+	}
+	var next atomic.Int64
+	var wg sync.WaitGroup
+	for k := 0; k < nw; k++ {
+		wg.Add(1)
+		go func() {
+			defer wg.Done()
+			w := c.Worker()
+			defer w.Done()
+			for {
+				lo := next.Add(chunk) - chunk
+				if lo >= n {
+					return
+				}
+				hi := lo + chunk
+				if hi > n {
+					hi = n
+				}
+				for i := lo; i < hi; i++ {
+					f(w, i)
+				}
+			}
+		}()
+	}
+	wg.Wait()
 }
 
 type c16Family struct {
@@ -1283,10 +1382,12 @@ func c16Seq(fams []c16Family, i int64) (*c16Family, []c16Op) {
 }
 
 func runC16(c *mc.Ctx) {
-	c.Rule("every history is executed on a fresh real Block/Tx; after every call the result is compared with a fresh computation from MsgBlock()/MsgTx() and with the objects returned earlier in the history, and the wire message, Height/Index are re-read; afterwards every accessor is called once more on the same object. Non-trivial = histories that take a path depending on earlier calls: an accessor repeated (served from the cache, identity compared), Transactions() completing a sparse or individually filled slot array, TxHash on an already wrapped slot, or an out-of-range index after some cache was filled")
-	c.Assume("bchd wire (MsgBlock.Serialize/BlockHash/DeserializeTxLoc layout, MsgTx.Serialize/TxHash) is the reference the statement names ('a fresh computation from the underlying wire message'); fixtures are checked to survive wire decode/encode before the run")
+	c.Rule("every history is executed on a fresh real Block/Tx; after every call the result is compared with a fresh computation from MsgBlock()/MsgTx() and with the objects returned earlier in the history, and every field of the wire message and Height/Index are re-read; all calls are explored as successors of every history (BFS to the fixpoint of the implementation-cache key, and all sequences up to the depth bound), histories of maximal length are followed by one more call of every accessor. Non-trivial = histories that take a path depending on earlier calls: an accessor repeated (served from the cache, identity compared), Transactions() completing a sparse or individually filled slot array, TxHash on an already wrapped slot, or an out-of-range index after some cache was filled")
+	c.Assume("bchd wire (MsgBlock.Serialize/BlockHash/DeserializeTxLoc layout, MsgTx.Serialize/TxHash) is the reference the statement names ('a fresh computation from the underlying wire message') and is a pure function of the message fields: after every call every field of MsgBlock()/MsgTx() is compared with the fixture's (field print, pinned to the wire struct definitions by a self-test) and, while equal, the fixture's wire serialisation and hashes computed once are the fresh values; on any difference they are recomputed from MsgBlock() with wire. Fixtures are checked to survive wire decode/encode before the run")
+	c.Assume("the re-parse clause (NewBlockFromBytes(b.Bytes()) equivalent to b) depends on the returned bytes only and is evaluated once per fixture, constructor and distinct Bytes() content; the final sweep of all accessors is run after the sequences of maximal length (shorter ones have the same calls as successors) and on every replay")
 	c.Assume("blocks with more than 3 transactions, transactions other than the 4 fixtures, serialized input followed by trailing bytes, and mutation of the underlying wire message after wrapping are outside the bound")
 	c.Assume("state key reads the private fields Block.{transactions,txnsGenerated,blockHash,serializedBlock,blockHeight} and Tx.{txHash,txIndex} by read-only reflection and is joined with the oracle's own memory (which objects it has already seen); it only decides when the breadth-first search stops, the depth-bounded enumeration does not use it")
+	c.Note("workers", "capped at 2: bchd/wire funnels every (de)serialisation through two global free-list channels, more goroutines only contend")
 	c16SelfTest()
 	if miss := c16MissingFields(); len(miss) > 0 {
 		c.Note("impl_key_fields_missing", miss)
@@ -1307,9 +1408,9 @@ func runC16(c *mc.Ctx) {
 	var mu sync.Mutex
 	bfs := map[string]bfsRes{}
 	var bfsStates int64
-	c.ParFor(int64(len(fams)), func(w *mc.W, i int64) {
+	c16ParFor(c, int64(len(fams)), func(w *mc.W, i int64) {
 		f := fams[i]
-		s, d := c16BFS(w, f.menu, func(ops []c16Op) string { return c16RunBlock(w, f.a, f.b, ops, true) })
+		s, d := c16BFS(w, f.menu, func(ops []c16Op) string { return c16RunBlock(w, f.a, f.b, ops, true, false) })
 		mu.Lock()
 		bfs[f.a+"/"+f.b] = bfsRes{s, d}
 		bfsStates += int64(s)
@@ -1322,9 +1423,9 @@ func runC16(c *mc.Ctx) {
 	depth := mc.Pick(c, 3, 4)
 	total := c16Layout(fams, depth)
 	c.Space(fmt.Sprintf("block: fixture x constructor x all call sequences of length <= %d over the menu {Tx,TxHash}x{-1,0..n,MaxInt}, Transactions, Hash, Bytes, TxLoc, SetHeight", depth), total)
-	c.ParFor(total, func(w *mc.W, i int64) {
+	c16ParFor(c, total, func(w *mc.W, i int64) {
 		f, ops := c16Seq(fams, i)
-		c16RunBlock(w, f.a, f.b, ops, false)
+		c16RunBlock(w, f.a, f.b, ops, false, len(ops) == depth)
 	})
 	c.Sample("block", c16BlockCase{Fixture: "b3tok", Ctor: "NewBlockFromBytes", Ops: []string{"TxHash(1)", "Transactions", "Tx(3)"}})
 
@@ -1337,9 +1438,9 @@ func runC16(c *mc.Ctx) {
 	}
 	tbfs := map[string]bfsRes{}
 	var tStates int64
-	c.ParFor(int64(len(tfams)), func(w *mc.W, i int64) {
+	c16ParFor(c, int64(len(tfams)), func(w *mc.W, i int64) {
 		f := tfams[i]
-		s, d := c16BFS(w, f.menu, func(ops []c16Op) string { return c16RunTx(w, f.a, f.b, ops, true) })
+		s, d := c16BFS(w, f.menu, func(ops []c16Op) string { return c16RunTx(w, f.a, f.b, ops, true, false) })
 		mu.Lock()
 		tbfs[f.a+"/"+f.b] = bfsRes{s, d}
 		tStates += int64(s)
@@ -1350,9 +1451,9 @@ func runC16(c *mc.Ctx) {
 	tdepth := mc.Pick(c, 5, 6)
 	ttotal := c16Layout(tfams, tdepth)
 	c.Space(fmt.Sprintf("tx: fixture x constructor x all call sequences of length <= %d over {Hash, MsgTx, Index, SetIndex(0), SetIndex(2), SetIndex(-1)}", tdepth), ttotal)
-	c.ParFor(ttotal, func(w *mc.W, i int64) {
+	c16ParFor(c, ttotal, func(w *mc.W, i int64) {
 		f, ops := c16Seq(tfams, i)
-		c16RunTx(w, f.a, f.b, ops, false)
+		c16RunTx(w, f.a, f.b, ops, false, len(ops) == tdepth)
 	})
 	c.Sample("tx", c16TxCase{Tx: "token", Ctor: "NewTxFromReader", Ops: []string{"Hash", "SetIndex(2)", "Hash"}})
 }
